@@ -8,6 +8,7 @@ import (
 	"errors"
 	"fmt"
 	"os"
+	"regexp"
 	"sort"
 	"strings"
 	"testing"
@@ -44,6 +45,7 @@ type Case struct {
 	T2Mode  string `json:"t2_mode,omitempty"`  // auto | tx
 	Overlap bool   `json:"overlap,omitempty"`  // T2 touches the row T1 holds
 	T1Ends  string `json:"t1_ends,omitempty"`  // commit | rollback
+	T2Shape string `json:"t2_shape,omitempty"` // "" (WHERE id = ?) | order-limit (… ORDER BY v DESC LIMIT 1: the row read is not the first in key order)
 	T1Phase string `json:"t1_phase,omitempty"` // committed (local commit done, global lock held) | open (local transaction open: local row lock held, no global lock yet)
 }
 
@@ -426,6 +428,18 @@ func runOverlap(c Case) *pt.Failure {
 			t2Row = 7
 		}
 	}
+	t2Query := "SELECT * FROM " + tn + " WHERE id = ? FOR UPDATE"
+	t2Args := []interface{}{t2Row}
+	// (only with T1's local transaction committed: a range scan FOR UPDATE legitimately waits for every
+	// row lock it meets, also on rows it does not return)
+	if c.T2Shape == "order-limit" && c.T2Kind == "select_for_update" && c.T1Kind == "update" && c.T1Phase != "open" {
+		// the row with the largest v is row 3; T1 holds it (overlap) or row 1
+		t2Row, t1Row = 3, 1
+		if c.Overlap {
+			t1Row = 3
+		}
+		t2Query, t2Args = "SELECT * FROM "+tn+" WHERE v > ? ORDER BY v DESC LIMIT 1 FOR UPDATE", []interface{}{int64(0)}
+	}
 	var t2Err error
 	var t2Rows []string
 	var t2Res atenv.BranchResult
@@ -477,7 +491,7 @@ func runOverlap(c Case) *pt.Failure {
 			}
 			switch c.T2Kind {
 			case "select_for_update":
-				stmts = append(stmts, atenv.StmtText{SQL: "SELECT * FROM " + tn + " WHERE id = ? FOR UPDATE", Args: []interface{}{t2Row}, Query: true})
+				stmts = append(stmts, atenv.StmtText{SQL: t2Query, Args: t2Args, Query: true})
 			case "delete":
 				stmts = append(stmts, atenv.StmtText{SQL: "DELETE FROM " + tn + " WHERE id = ?", Args: []interface{}{t2Row}})
 			default:
@@ -515,9 +529,23 @@ func runOverlap(c Case) *pt.Failure {
 		return pt.Failf("C03/overlap/transaction-left-open/"+c.T2Kind+"/"+c.T2Mode, "engine transaction left open on %v\n%s", env.Srv.OpenTxConns(), info)
 	}
 	lockQueries := 0
+	queried := map[string]bool{}
 	for _, e := range env.TC.Events() {
-		if _, ok := e.Body.(message.GlobalLockQueryRequest); ok && e.Dir == "c2s" {
+		if b, ok := e.Body.(message.GlobalLockQueryRequest); ok && e.Dir == "c2s" {
 			lockQueries++
+			for k := range lockRows(b.LockKey) {
+				queried[k] = true
+			}
+		}
+	}
+	// the rows a locking read hands out are the rows it asked the coordinator about
+	if c.T2Kind == "select_for_update" && t2Err == nil {
+		for _, r := range t2Rows {
+			if m := regexp.MustCompile(`\bid=\S*?(\d+)`).FindStringSubmatch(r); m != nil {
+				if k := strings.ToUpper(tn) + ":" + m[1]; !queried[k] {
+					return pt.Failf("C03/overlap/returned-row-not-queried/"+c.T2Shape, "the locking read returned row %s, the lock query named %v\n%s", m[1], queried, info)
+				}
+			}
 		}
 	}
 	last.conflict = c.Overlap
@@ -537,7 +565,7 @@ func runOverlap(c Case) *pt.Failure {
 				return pt.Failf("C03/overlap/no-lock-query", "SELECT … FOR UPDATE inside a global transaction returned rows without asking the coordinator\n%s", info)
 			}
 			// rows equal the bare driver's
-			r := atenvQuery(env.Bare, "SELECT * FROM "+tn+" WHERE id = ?", t2Row)
+			r := atenvQuery(env.Bare, "SELECT * FROM "+tn+" WHERE id = ?", t2Row) // (order-limit: row 3 has the largest v)
 			if strings.Join(r, ";") != strings.Join(t2Rows, ";") {
 				return pt.Failf("C03/overlap/rows-differ", "locking read returned %v, the table has %v\n%s", t2Rows, r, info)
 			}
@@ -646,7 +674,8 @@ func TestPropOverlap(t *testing.T) {
 			T2Kind: rapid.SampledFrom([]string{"select_for_update", "select_for_update", "update", "delete"}).Draw(rt, "t2"),
 			T2Mode: rapid.SampledFrom([]string{"auto", "tx"}).Draw(rt, "t2mode"), Overlap: rapid.Bool().Draw(rt, "overlap"),
 			T1Ends:  rapid.SampledFrom([]string{"commit", "rollback"}).Draw(rt, "t1ends"),
-			T1Phase: rapid.SampledFrom([]string{"committed", "committed", "open"}).Draw(rt, "t1phase")}
+			T1Phase: rapid.SampledFrom([]string{"committed", "committed", "open"}).Draw(rt, "t1phase"),
+			T2Shape: rapid.SampledFrom([]string{"", "", "order-limit"}).Draw(rt, "t2shape")}
 		if c.T1Kind == "delete" && c.Overlap && c.T2Kind != "select_for_update" {
 			c.T2Kind = "select_for_update" // the row is gone for T2's write; a locking read still has to ask
 		}
